@@ -234,3 +234,123 @@ def mk_reentry(props, K=2):
 
 REENTRY_PARAMS = [I("pos", 0, 2), I("spelling", 0, 2), I("ka", 0, 1), I("kc", 0, 1), I("kb", 0, 1),
                   I("dc", 0, 2), I("db", 0, 2), B("fh"), I("p0"), I("p1"), I("ho", 0, 1), I("v")]
+
+
+# ---------------------------------------------------------------------------------------
+# F-SEQ: a task whose consecutive steps mix items, tasks that finish without any flush, tasks that
+# block, and constants (a dependency that completes inside the same scheduler pass, followed by a
+# yield of a task that has not started yet), next to a sibling chain with pending requests
+
+def seq_step(sel, name, i, v):
+    if sel == 0:
+        return Y(0, ITEM(0, v + i))
+    if sel == 1:
+        return Y(0, ITEM(1, v + i))
+    if sel == 2:
+        return Y(0, TASK(fam.plain_task("%sq%d" % (name, i), v + i)))
+    if sel == 3:
+        return Y(0, TASK(fam.chain("%sc%d" % (name, i), 1, 0, v + i)))
+    if sel == 4:
+        return Y(0, TASK(fam.chain("%sd%d" % (name, i), 1, 1, v + i)))
+    if sel == 5:
+        return Y(0, CONST(v + i))
+    if sel == 6:
+        return Y(4, TASK(fam.plain_task("%sq%d" % (name, i), v + i)), TASK(fam.chain("%sc%d" % (name, i), 1, 1, v + i)))
+    raise AssertionError(sel)
+
+
+SEQ_MENU = 7
+
+
+def mk_seq(props, na=3, nb=2):
+    def f(ho, *a):
+        sa = [conc(a[i], SEQ_MENU) for i in range(na)]
+        kb = [conc(a[na + i], 2) for i in range(nb)]
+        p0, p1, v = a[na + nb:na + nb + 3]
+        T = TaskD("T", SEQ(*[seq_step(s, "T", i, v) for i, s in enumerate(sa)]))
+        Sb = fam.chain_kinds("Sib", kb, v + 50)
+        td = TaskD("root", Y(4, TASK(T), TASK(Sb)))
+        return check_program(td, props, nkinds=2, prio=[p0, p1], hash_order=conc(ho, 2),
+                             sig=("seq", tuple(sa), tuple(kb)))
+    return f
+
+
+def seq_params(na=3, nb=2):
+    return ([I("ho", 0, 1)] + [I("s%d" % i, 0, SEQ_MENU - 1) for i in range(na)]
+            + [I("kb%d" % i, 0, 1) for i in range(nb)] + [I("p0"), I("p1"), I("v")])
+
+
+def seq_cond(name, props, na=3, nb=2, budget=200, builds=("C",)):
+    return Cond(name, mk_seq(props, na, nb), seq_params(na, nb), pin=2, builds=builds, budget=budget,
+                family="F-SEQ(%d,%d) mixed steps: items / tasks finishing in-pass / blocking tasks / consts" % (na, nb),
+                encodes=ENC_SCHED)
+
+
+# ---------------------------------------------------------------------------------------
+# F-CANCEL: user code cancels a pending batch that other tasks are waiting on
+
+def mk_cancel(props):
+    def f(ho, pos, ka, kc, kb0, kb1, ka2, gs, p0, p1, v):
+        from harness.prog import CANCEL
+        posv = conc(pos, 3)
+        kav, kcv, ka2v = conc(ka, 2), conc(kc, 2), conc(ka2, 2)
+        steps = [Y(0, ITEM(kav, v)), Y(0, ITEM(ka2v, v + 1))]
+        steps.insert(posv, CANCEL(kcv))
+        T = TaskD("T", SEQ(*steps))
+        gm = conc(gs, 3)
+        sib_steps = [fam.guard(Y(0, ITEM(conc(kb0, 2), v + 10)), gm), Y(0, ITEM(conc(kb1, 2), v + 11))]
+        Sb = TaskD("Sib", SEQ(*sib_steps))
+        td = TaskD("root", fam.guard(Y(4, TASK(T), TASK(Sb)), 2))
+        return check_program(td, props, nkinds=2, prio=[p0, p1], hash_order=conc(ho, 2),
+                             sig=("cancel", posv, kav, kcv, ka2v, gm))
+    return f
+
+
+CANCEL_PARAMS = [I("ho", 0, 1), I("pos", 0, 2), I("ka", 0, 1), I("kc", 0, 1), I("kb0", 0, 1), I("kb1", 0, 1),
+                 I("ka2", 0, 1), I("gs", 0, 2), I("p0"), I("p1"), I("v")]
+
+
+def cancel_cond(name, props, budget=120):
+    return Cond(name, mk_cancel(props), CANCEL_PARAMS, pin=2, builds=("C",), budget=budget,
+                family="F-CANCEL: a task cancels a pending batch other tasks wait on", encodes=ENC_SCHED)
+
+
+# ---------------------------------------------------------------------------------------
+# F-DAGSYNC: a synchronous call from inside a task awaits a task that a pending sibling also awaits
+
+def dagsync_prog(ks, ds, ka, kb, pos, sp, order, bshape, v):
+    S = fam.chain("S", ds, ks, v + 5)
+    C = TaskD("C", Y(0, SHARED("s", S)))
+    steps = [Y(0, ITEM(ka, v + 1)), Y(0, ITEM(ka, v + 2))]
+    steps.insert(pos, SYNC(sp, TASK(C)))
+    A = TaskD("A", SEQ(*steps))
+    if bshape == 0:
+        Bt = TaskD("B", Y(0, SHARED("s", S)))
+    elif bshape == 1:
+        Bt = TaskD("B", Y(4, SHARED("s", S), ITEM(kb, v + 3)))
+    elif bshape == 2:
+        Bt = TaskD("B", Y(4, ITEM(kb, v + 3), SHARED("s", S)))
+    else:
+        Bt = TaskD("B", SEQ(Y(0, ITEM(kb, v + 3)), Y(0, SHARED("s", S))))
+    kids = [TASK(A), TASK(Bt)] if order == 0 else [TASK(Bt), TASK(A)]
+    return TaskD("root", Y(4, *kids))
+
+
+def mk_dagsync(props):
+    def f(pos, sp, bshape, ks, ds, ka, kb, order, p0, p1, ho, v):
+        td = dagsync_prog(conc(ks, 2), 1 + conc(ds, 2), conc(ka, 2), conc(kb, 2), conc(pos, 3), conc(sp, 2),
+                          conc(order, 2), conc(bshape, 4), v)
+        return check_program(td, props, nkinds=2, prio=[p0, p1], hash_order=conc(ho, 2),
+                             sig=("dagsync", conc(pos, 3), conc(sp, 2), conc(bshape, 4), conc(ks, 2), conc(ds, 2),
+                                  conc(ka, 2), conc(kb, 2), conc(order, 2)))
+    return f
+
+
+DAGSYNC_PARAMS = [I("pos", 0, 2), I("sp", 0, 1), I("bshape", 0, 3), I("ks", 0, 1), I("ds", 0, 1), I("ka", 0, 1),
+                  I("kb", 0, 1), I("order", 0, 1), I("p0"), I("p1"), I("ho", 0, 1), I("v")]
+
+
+def dagsync_cond(name, props, budget=150):
+    return Cond(name, mk_dagsync(props), DAGSYNC_PARAMS, pin=3, builds=("C",), budget=budget,
+                family="F-DAGSYNC: synchronous call awaiting a task shared with a pending sibling",
+                encodes=ENC_SCHED)
